@@ -747,6 +747,59 @@ func sharedStoreProbe() riCase {
 	return c
 }
 
+// widePeersCase: regions with 13..17 peers with distinct ids (sort.Sort leaves its insertion-sort regime at 12
+// elements; with distinct peer ids every correct sort gives the same list, Coq theorem C07_sort_peers_unique).  The peers
+// arrive in a shuffled order; then the same peer set in another order with another size (statistics-only path), then one
+// peer moved to another store (sub-tree cleanup path), then a removal.
+func widePeersCase(seed uint64) riCase {
+	c := riCase{Kind: "ri", tags: map[string]int{"directed:wide-peer-lists": 1}}
+	r := rng.New(seed)
+	g := &riGen{r: r, a: c07x.Small(), w: &world{ri: core.NewRegionsInfo()}, c: &c, stores: 20, cached: map[uint64]c07x.Region{}}
+	mk := func(id uint64, start, end string, n int, ver uint64) c07x.Region {
+		perm := r.Perm(n)
+		var ps []c07x.Peer
+		for k, j := range perm {
+			ps = append(ps, c07x.Peer{ID: id*100 + uint64(j) + 1, Store: uint64(k) + 1, Learner: j%5 == 4})
+		}
+		lead := ps[0]
+		for _, q := range ps {
+			if !q.Learner {
+				lead = q
+				break
+			}
+		}
+		return c07x.Region{ID: id, Start: start, End: end, Peers: ps, Leader: lead.ID, Pending: []c07x.Peer{ps[n-1], ps[n/2]},
+			Size: int64(10 + n), Ver: ver, ConfVer: 1, Term: 1, Stamp: g.nextStamp()}
+	}
+	x := mk(1, "a", "c", 13+r.Intn(5), 1)
+	y := mk(2, "c", "e", 13+r.Intn(5), 1)
+	g.put(x)
+	g.put(y)
+	g.queries(true)
+	// same peers, other order, other size
+	x2 := x.Clone()
+	for i, j := range r.Perm(len(x2.Peers)) {
+		x2.Peers[i] = x.Peers[j]
+	}
+	x2.Size, x2.Stamp = x.Size+7, g.nextStamp()
+	g.put(x2)
+	g.queries(true)
+	// one peer moves to a free store
+	x3 := x2.Clone()
+	x3.Peers[3].Store = 19
+	x3.Pending = nil
+	x3.ConfVer, x3.Stamp = 2, g.nextStamp()
+	g.put(x3)
+	g.queries(true)
+	// a wide region swallowing both
+	z := mk(3, "", "", 13+r.Intn(5), 2)
+	g.put(z)
+	g.queries(true)
+	g.step(rop{K: "remove", ID: 3})
+	g.queries(true)
+	return c
+}
+
 // ---------------------------------------------------------------------------------------------
 
 type anyCase struct {
@@ -891,6 +944,8 @@ func main() {
 			}
 			emitRI(c)
 		}
+		emitRI(widePeersCase(*seed))
+		emitRI(widePeersCase(*seed + 1000))
 		{
 			c := sharedStoreProbe()
 			if strings.HasSuffix(c.Obs[3], "0; 50; 0]") {
